@@ -81,12 +81,14 @@ def variants(kinds, acts):
 
 
 # ---------------------------------------------------------------- rendering
-def _read(site, v):
-    return f'(log {site} (try {v} (except [NameError] "{UNBOUND}")))'
-
-
-def render(pool, kinds, acts, use):
+def render(pool, kinds, acts, use, guard=None):
+    """guard: set of read sites to write as (log i (try v (except [NameError] "U"))); None = all of them."""
     d = len(kinds) - 1
+
+    def _read(site, v):
+        if guard is None or site in guard:
+            return f'(log {site} (try {v} (except [NameError] "{UNBOUND}")))'
+        return f"(log {site} {v})"
 
     def level(i):
         a = acts[i]
